@@ -446,7 +446,7 @@ class Render:
     """Braced rendering.  Types are pinned (E@T) only where the context does not already determine them: the unchanged
     tree mis-handles some pinned sub-expressions in nested conditional contexts (DESIGN 6a), and conditions of `if`
     statements are first stored in a Boolean variable for the same reason."""
-    def __init__(self, g, drop_val=False, box_plus=False, extra_top=(), marker=None): self.g = g; self.nb = 0; self.drop_val = drop_val; self.box_plus = box_plus; self.extra_top = list(extra_top); self.marker = marker
+    def __init__(self, g, drop_val=False, box_plus=False, extra_top=(), marker=None, cond_val=False): self.g = g; self.nb = 0; self.drop_val = drop_val; self.box_plus = box_plus; self.extra_top = list(extra_top); self.marker = marker; self.cond_val = cond_val
 
     def anchored(self, x):
         k = x[0]
@@ -603,7 +603,7 @@ class Render:
         if g.consts:
             c = g.consts
             o.append('define ZqCat: Category == with { val: % -> MI; twice: % -> MI; default twice(x: %): MI == 2 * val x };')
-            o.append('ZqDomA: ZqCat with { mkA: MI -> % } == add { Rep == MI; import from Rep; mkA(n: MI): % == per n; ' + ('' if self.drop_val else 'val(x: %): MI == rep x + ' + self.lit(c['ka'])) + ' }')
+            o.append('ZqDomA: ZqCat with { mkA: MI -> % } == add { Rep == MI; import from Rep; mkA(n: MI): % == per n; ' + ('' if self.drop_val else ('if MI has FloatType then { val(x: %): MI == rep x + ' + self.lit(c['ka']) + ' }') if self.cond_val else 'val(x: %): MI == rep x + ' + self.lit(c['ka'])) + ' }')
             o.append('ZqDomB: ZqCat with { mkB: MI -> % } == add { Rep == MI; import from Rep; mkB(n: MI): % == per n; val(x: %): MI == rep x + ' + self.lit(c['kb']) + '; twice(x: %): MI == ' + self.lit(c['mb']) + ' * rep x }')
             o.append('ZqBox(T: ZqCat): with { box: T -> %; get: % -> MI } == add { Rep == T; import from Rep; box(t: T): % == per t; get(b: %): MI == ' + ('(rep b + 1)' if self.box_plus else 'twice(rep b)') + ' + ' + self.lit(c['kg']) + ' }')
             o.append('import from ZqDomA, ZqDomB, ZqBox ZqDomA, ZqBox ZqDomB;')
